@@ -321,6 +321,13 @@ def run(model, rep, tier):
     t = [stmt_key(s) for s in ast.walk(er.node) if isinstance(s, ast.Expr)]
     rep.check("self._readers.remove(txn)" in t and "self._prune_versions_unlocked()" in t, "R-11.4", er.qualname, where(er, er.node), "ending a read unregisters and prunes",
               "ending a read does not (unregister the reader and prune)", stmt="end-read")
+    for qn, what in (("dns.versioned.Zone._end_read", "closing a reader"), ("dns.versioned.Zone._commit_version_unlocked", "a commit")):
+        fp = model.func(qn)
+        cp = CFG(fp.node, implicit_exc=False)
+        prunes = [n.id for (n, c) in calls_with_nodes(cp) if src(c.func) == "self._prune_versions_unlocked"]
+        rep.check(bool(prunes) and cp.dominated_by_set(cp.exit.id, prunes), "R-11.4", qn, where(fp, fp.node), f"{what} always runs the pruner",
+                  f"{what} can finish without running _prune_versions_unlocked() (it is missing or conditional): versions no reader pins and the policy does not keep stay retained - and openable by id - "
+                  "until some later event", stmt="always-prunes")
     rep.assume("tuple and collections.abc.Mapping provide no mutating methods (interpreter builtins, introspected with hasattr)")
     rep.assume("a frozen dns.btree.BTreeDict rejects mutation (decided under C19 R-19.2)")
     rep.share(model, "C10", {"R-10.2", "R-10.5"}, "R-11.6", "ImmutableVersion.__init__ looks every name of version.changed up in version.nodes and replaces the node by a frozen one")
@@ -351,6 +358,8 @@ def _is_immutable_version_expr(model, f, arg):
 
 
 WITNESSES = [
+    {"id": "c11-end-read-prunes-only-when-no-readers", "rule": "R-11.4", "file": "dns/versioned.py", "expect": "fires",
+     "old": "            self._readers.remove(txn)\n            self._prune_versions_unlocked()", "new": "            self._readers.remove(txn)\n            if len(self._readers) == 0:\n                self._prune_versions_unlocked()"},
     {"id": "c11-immutable-rdataset-aliases-source", "rule": "R-11.5", "file": "dns/rdataset.py", "expect": "fires",
      "old": "        self.items = dns.immutable.Dict(rdataset.items)", "new": "        self.items = dns.immutable.Dict(rdataset.items, True)"},
     {"id": "c11-btree-steal-writes-shared-node", "rule": "R-11.5", "file": "dns/btree.py", "expect": "fires",
